@@ -1,5 +1,5 @@
 CHECKS = [
-    entry("C02", "collector",
+    entry("C02", "collector", crashcap=True,
           technique="property-based testing (rapid): generated schedules on the real collector in a synctest bubble; exactly-once / never ledger over span uids and bounded eventual decision",
           quick=dict(checks=700, budget_s=70),
           thorough=dict(checks=8000, shards=16, budget_s=540),
